@@ -27,6 +27,17 @@ fn c09_mask_mod_usize() {
     assert!((x & (m - 1)) == x % m, "C09:x & (m-1) == x mod m");
 }
 
+// C03 leaf fact imported by the Verus unit `galois` (kx_mask_mod_u64): x & (m-1) == x mod m for every power of two m <= 2^33
+#[kani::proof]
+fn c03_mask_mod_u64() {
+    let k: u32 = kani::any();
+    kani::assume(k <= 33);
+    let m: i64 = 1i64 << k;
+    let x: u64 = kani::any();
+    let r = x & ((m - 1) as u64);
+    assert!(r == x % (m as u64) && r < m as u64, "C03:x & (m-1) == x mod m");
+}
+
 // ------------------------------------------------------------------------------------------------
 // C08 digit / carry leaves: all x, all radices
 // ------------------------------------------------------------------------------------------------
@@ -75,7 +86,7 @@ fn any_in(h: i64) -> i64 {
     v
 }
 
-fn kernel_laws(b: usize) {
+fn laws_first(b: usize) {
     let lsh: usize = kani::any();
     kani::assume(lsh < b);
     let p2b: i128 = 1i128 << b;
@@ -109,6 +120,19 @@ fn kernel_laws(b: usize) {
         znx_normalize_first_step_ref::<false>(b, lsh, &mut y, &[a], &mut c2);
         assert!(y[0] as i128 == x_in as i128 + x[0] as i128 && c2[0] == c[0], "C08:first<ACCUMULATE> adds the same digit");
     }
+    kani::cover!(lsh > 0 || b == 1, "C08:kernel laws reachable");
+}
+
+fn laws_middle(b: usize) {
+    let lsh: usize = kani::any();
+    kani::assume(lsh < b);
+    let p2b: i128 = 1i128 << b;
+    let a = any_in(HA);
+    let c_in = any_in(HC);
+    let x_in = any_in(HC);
+    let rhs_first: i128 = (a as i128) << lsh;
+    let rhs_mid: i128 = ((a as i128) << lsh) + c_in as i128;
+
     // middle step, carry only
     {
         let mut c = [c_in];
@@ -137,6 +161,19 @@ fn kernel_laws(b: usize) {
         znx_normalize_middle_step_sub_ref(b, lsh, &mut z, &[a], &mut c3);
         assert!(z[0] as i128 == x_in as i128 - x[0] as i128 && c3[0] == c[0], "C08:middle_sub subtracts the same digit");
     }
+    kani::cover!(lsh > 0 || b == 1, "C08:kernel laws reachable");
+}
+
+fn laws_final(b: usize) {
+    let lsh: usize = kani::any();
+    kani::assume(lsh < b);
+    let p2b: i128 = 1i128 << b;
+    let a = any_in(HA);
+    let c_in = any_in(HC);
+    let x_in = any_in(HC);
+    let rhs_first: i128 = (a as i128) << lsh;
+    let rhs_mid: i128 = ((a as i128) << lsh) + c_in as i128;
+
     // final step: assign / overwrite / accumulate / subtract  (congruence mod 2^b, balanced, no carry out)
     {
         let mut x = [a];
@@ -155,10 +192,23 @@ fn kernel_laws(b: usize) {
         znx_normalize_final_step_sub_ref(b, lsh, &mut w, &[a], &mut c1);
         assert!(w[0] as i128 == x_in as i128 - x[0] as i128, "C08:final_sub law");
     }
+    kani::cover!(lsh > 0 || b == 1, "C08:kernel laws reachable");
+}
+
+fn laws_digit(b: usize) {
+    let lsh: usize = kani::any();
+    kani::assume(lsh < b);
+    let p2b: i128 = 1i128 << b;
+    let a = any_in(HA);
+    let c_in = any_in(HC);
+    let x_in = any_in(HC);
+    let rhs_first: i128 = (a as i128) << lsh;
+    let rhs_mid: i128 = ((a as i128) << lsh) + c_in as i128;
+
     // digit extraction helpers used by the cross-radix path
     {
         let sh: usize = kani::any();
-        kani::assume(sh + b <= 62);
+        kani::assume(sh <= 62 && sh + b <= 62);
         let mut r = [x_in];
         let mut s = [a];
         znx_extract_digit_addmul_ref(b, sh, &mut r, &mut s);
@@ -174,73 +224,202 @@ fn kernel_laws(b: usize) {
 }
 
 macro_rules! kernel_harness {
-    ($name:ident, $b:expr) => {
+    ($f:ident, $m:ident, $fi:ident, $d:ident, $b:expr) => {
         #[kani::proof]
         #[kani::unwind(3)]
-        fn $name() {
-            kernel_laws($b);
+        fn $f() {
+            laws_first($b);
+        }
+        #[kani::proof]
+        #[kani::unwind(3)]
+        fn $m() {
+            laws_middle($b);
+        }
+        #[kani::proof]
+        #[kani::unwind(3)]
+        fn $fi() {
+            laws_final($b);
+        }
+        #[kani::proof]
+        #[kani::unwind(3)]
+        fn $d() {
+            laws_digit($b);
         }
     };
 }
-kernel_harness!(c08_kernels_b1, 1);
-kernel_harness!(c08_kernels_b2, 2);
-kernel_harness!(c08_kernels_b3, 3);
-kernel_harness!(c08_kernels_b4, 4);
-kernel_harness!(c08_kernels_b5, 5);
-kernel_harness!(c08_kernels_b6, 6);
-kernel_harness!(c08_kernels_b7, 7);
-kernel_harness!(c08_kernels_b8, 8);
-kernel_harness!(c08_kernels_b9, 9);
-kernel_harness!(c08_kernels_b10, 10);
-kernel_harness!(c08_kernels_b11, 11);
-kernel_harness!(c08_kernels_b12, 12);
-kernel_harness!(c08_kernels_b13, 13);
-kernel_harness!(c08_kernels_b14, 14);
-kernel_harness!(c08_kernels_b15, 15);
-kernel_harness!(c08_kernels_b16, 16);
-kernel_harness!(c08_kernels_b17, 17);
-kernel_harness!(c08_kernels_b18, 18);
-kernel_harness!(c08_kernels_b19, 19);
-kernel_harness!(c08_kernels_b20, 20);
-kernel_harness!(c08_kernels_b21, 21);
-kernel_harness!(c08_kernels_b22, 22);
-kernel_harness!(c08_kernels_b23, 23);
-kernel_harness!(c08_kernels_b24, 24);
-kernel_harness!(c08_kernels_b25, 25);
-kernel_harness!(c08_kernels_b26, 26);
-kernel_harness!(c08_kernels_b27, 27);
-kernel_harness!(c08_kernels_b28, 28);
-kernel_harness!(c08_kernels_b29, 29);
-kernel_harness!(c08_kernels_b30, 30);
-kernel_harness!(c08_kernels_b31, 31);
-kernel_harness!(c08_kernels_b32, 32);
-kernel_harness!(c08_kernels_b33, 33);
-kernel_harness!(c08_kernels_b34, 34);
-kernel_harness!(c08_kernels_b35, 35);
-kernel_harness!(c08_kernels_b36, 36);
-kernel_harness!(c08_kernels_b37, 37);
-kernel_harness!(c08_kernels_b38, 38);
-kernel_harness!(c08_kernels_b39, 39);
-kernel_harness!(c08_kernels_b40, 40);
-kernel_harness!(c08_kernels_b41, 41);
-kernel_harness!(c08_kernels_b42, 42);
-kernel_harness!(c08_kernels_b43, 43);
-kernel_harness!(c08_kernels_b44, 44);
-kernel_harness!(c08_kernels_b45, 45);
-kernel_harness!(c08_kernels_b46, 46);
-kernel_harness!(c08_kernels_b47, 47);
-kernel_harness!(c08_kernels_b48, 48);
-kernel_harness!(c08_kernels_b49, 49);
-kernel_harness!(c08_kernels_b50, 50);
-kernel_harness!(c08_kernels_b51, 51);
-kernel_harness!(c08_kernels_b52, 52);
-kernel_harness!(c08_kernels_b53, 53);
-kernel_harness!(c08_kernels_b54, 54);
-kernel_harness!(c08_kernels_b55, 55);
-kernel_harness!(c08_kernels_b56, 56);
-kernel_harness!(c08_kernels_b57, 57);
-kernel_harness!(c08_kernels_b58, 58);
-kernel_harness!(c08_kernels_b59, 59);
-kernel_harness!(c08_kernels_b60, 60);
-kernel_harness!(c08_kernels_b61, 61);
-kernel_harness!(c08_kernels_b62, 62);
+kernel_harness!(c08_first_b1, c08_middle_b1, c08_final_b1, c08_digit_b1, 1);
+kernel_harness!(c08_first_b2, c08_middle_b2, c08_final_b2, c08_digit_b2, 2);
+kernel_harness!(c08_first_b3, c08_middle_b3, c08_final_b3, c08_digit_b3, 3);
+kernel_harness!(c08_first_b4, c08_middle_b4, c08_final_b4, c08_digit_b4, 4);
+kernel_harness!(c08_first_b5, c08_middle_b5, c08_final_b5, c08_digit_b5, 5);
+kernel_harness!(c08_first_b6, c08_middle_b6, c08_final_b6, c08_digit_b6, 6);
+kernel_harness!(c08_first_b7, c08_middle_b7, c08_final_b7, c08_digit_b7, 7);
+kernel_harness!(c08_first_b8, c08_middle_b8, c08_final_b8, c08_digit_b8, 8);
+kernel_harness!(c08_first_b9, c08_middle_b9, c08_final_b9, c08_digit_b9, 9);
+kernel_harness!(c08_first_b10, c08_middle_b10, c08_final_b10, c08_digit_b10, 10);
+kernel_harness!(c08_first_b11, c08_middle_b11, c08_final_b11, c08_digit_b11, 11);
+kernel_harness!(c08_first_b12, c08_middle_b12, c08_final_b12, c08_digit_b12, 12);
+kernel_harness!(c08_first_b13, c08_middle_b13, c08_final_b13, c08_digit_b13, 13);
+kernel_harness!(c08_first_b14, c08_middle_b14, c08_final_b14, c08_digit_b14, 14);
+kernel_harness!(c08_first_b15, c08_middle_b15, c08_final_b15, c08_digit_b15, 15);
+kernel_harness!(c08_first_b16, c08_middle_b16, c08_final_b16, c08_digit_b16, 16);
+kernel_harness!(c08_first_b17, c08_middle_b17, c08_final_b17, c08_digit_b17, 17);
+kernel_harness!(c08_first_b18, c08_middle_b18, c08_final_b18, c08_digit_b18, 18);
+kernel_harness!(c08_first_b19, c08_middle_b19, c08_final_b19, c08_digit_b19, 19);
+kernel_harness!(c08_first_b20, c08_middle_b20, c08_final_b20, c08_digit_b20, 20);
+kernel_harness!(c08_first_b21, c08_middle_b21, c08_final_b21, c08_digit_b21, 21);
+kernel_harness!(c08_first_b22, c08_middle_b22, c08_final_b22, c08_digit_b22, 22);
+kernel_harness!(c08_first_b23, c08_middle_b23, c08_final_b23, c08_digit_b23, 23);
+kernel_harness!(c08_first_b24, c08_middle_b24, c08_final_b24, c08_digit_b24, 24);
+kernel_harness!(c08_first_b25, c08_middle_b25, c08_final_b25, c08_digit_b25, 25);
+kernel_harness!(c08_first_b26, c08_middle_b26, c08_final_b26, c08_digit_b26, 26);
+kernel_harness!(c08_first_b27, c08_middle_b27, c08_final_b27, c08_digit_b27, 27);
+kernel_harness!(c08_first_b28, c08_middle_b28, c08_final_b28, c08_digit_b28, 28);
+kernel_harness!(c08_first_b29, c08_middle_b29, c08_final_b29, c08_digit_b29, 29);
+kernel_harness!(c08_first_b30, c08_middle_b30, c08_final_b30, c08_digit_b30, 30);
+kernel_harness!(c08_first_b31, c08_middle_b31, c08_final_b31, c08_digit_b31, 31);
+kernel_harness!(c08_first_b32, c08_middle_b32, c08_final_b32, c08_digit_b32, 32);
+kernel_harness!(c08_first_b33, c08_middle_b33, c08_final_b33, c08_digit_b33, 33);
+kernel_harness!(c08_first_b34, c08_middle_b34, c08_final_b34, c08_digit_b34, 34);
+kernel_harness!(c08_first_b35, c08_middle_b35, c08_final_b35, c08_digit_b35, 35);
+kernel_harness!(c08_first_b36, c08_middle_b36, c08_final_b36, c08_digit_b36, 36);
+kernel_harness!(c08_first_b37, c08_middle_b37, c08_final_b37, c08_digit_b37, 37);
+kernel_harness!(c08_first_b38, c08_middle_b38, c08_final_b38, c08_digit_b38, 38);
+kernel_harness!(c08_first_b39, c08_middle_b39, c08_final_b39, c08_digit_b39, 39);
+kernel_harness!(c08_first_b40, c08_middle_b40, c08_final_b40, c08_digit_b40, 40);
+kernel_harness!(c08_first_b41, c08_middle_b41, c08_final_b41, c08_digit_b41, 41);
+kernel_harness!(c08_first_b42, c08_middle_b42, c08_final_b42, c08_digit_b42, 42);
+kernel_harness!(c08_first_b43, c08_middle_b43, c08_final_b43, c08_digit_b43, 43);
+kernel_harness!(c08_first_b44, c08_middle_b44, c08_final_b44, c08_digit_b44, 44);
+kernel_harness!(c08_first_b45, c08_middle_b45, c08_final_b45, c08_digit_b45, 45);
+kernel_harness!(c08_first_b46, c08_middle_b46, c08_final_b46, c08_digit_b46, 46);
+kernel_harness!(c08_first_b47, c08_middle_b47, c08_final_b47, c08_digit_b47, 47);
+kernel_harness!(c08_first_b48, c08_middle_b48, c08_final_b48, c08_digit_b48, 48);
+kernel_harness!(c08_first_b49, c08_middle_b49, c08_final_b49, c08_digit_b49, 49);
+kernel_harness!(c08_first_b50, c08_middle_b50, c08_final_b50, c08_digit_b50, 50);
+kernel_harness!(c08_first_b51, c08_middle_b51, c08_final_b51, c08_digit_b51, 51);
+kernel_harness!(c08_first_b52, c08_middle_b52, c08_final_b52, c08_digit_b52, 52);
+kernel_harness!(c08_first_b53, c08_middle_b53, c08_final_b53, c08_digit_b53, 53);
+kernel_harness!(c08_first_b54, c08_middle_b54, c08_final_b54, c08_digit_b54, 54);
+kernel_harness!(c08_first_b55, c08_middle_b55, c08_final_b55, c08_digit_b55, 55);
+kernel_harness!(c08_first_b56, c08_middle_b56, c08_final_b56, c08_digit_b56, 56);
+kernel_harness!(c08_first_b57, c08_middle_b57, c08_final_b57, c08_digit_b57, 57);
+kernel_harness!(c08_first_b58, c08_middle_b58, c08_final_b58, c08_digit_b58, 58);
+kernel_harness!(c08_first_b59, c08_middle_b59, c08_final_b59, c08_digit_b59, 59);
+kernel_harness!(c08_first_b60, c08_middle_b60, c08_final_b60, c08_digit_b60, 60);
+kernel_harness!(c08_first_b61, c08_middle_b61, c08_final_b61, c08_digit_b61, 61);
+kernel_harness!(c08_first_b62, c08_middle_b62, c08_final_b62, c08_digit_b62, 62);
+
+// ------------------------------------------------------------------------------------------------
+// C09 ring splitting / merging (bounded in shape: N = 8 -> 2 parts of 4 / 4 parts of 2; limb contents symbolic)
+//   split: part_i[k] == a[g*k + i];   merge(split(a)) == a  ("merging the parts of a split returns the original")
+// ------------------------------------------------------------------------------------------------
+fn split_merge_laws<const N: usize, const G: usize, const M: usize>() {
+    use crate::reference::vec_znx::{vec_znx_merge_rings, vec_znx_split_ring};
+    use poulpy_hal::layouts::{VecZnx, ZnxView, ZnxViewMut};
+    let size = 2usize;
+    let mut a: VecZnx<Vec<u8>> = VecZnx::alloc(N, 1, size);
+    for x in a.raw_mut().iter_mut() {
+        *x = kani::any();
+        kani::assume(*x > i64::MIN);
+    }
+    // second limb shorter operand shape: parts have 2 limbs, output of merge has 2 limbs
+    let mut parts: Vec<VecZnx<Vec<u8>>> = (0..G).map(|_| VecZnx::alloc(M, 1, size)).collect();
+    for p in parts.iter_mut() {
+        for x in p.raw_mut().iter_mut() {
+            *x = kani::any(); // stale contents must not matter (C11)
+        }
+    }
+    let mut tmp = [0i64; N];
+    vec_znx_split_ring::<_, _, ZnxRef>(&mut parts, 0, &a, 0, &mut tmp);
+    let mut j = 0;
+    while j < size {
+        let mut i = 0;
+        while i < G {
+            let mut k = 0;
+            while k < M {
+                assert!(parts[i].at(0, j)[k] == a.at(0, j)[G * k + i], "C09:split part_i[k] == a[g*k+i]");
+                k += 1;
+            }
+            i += 1;
+        }
+        j += 1;
+    }
+    let mut back: VecZnx<Vec<u8>> = VecZnx::alloc(N, 1, size);
+    for x in back.raw_mut().iter_mut() {
+        *x = kani::any();
+    }
+    vec_znx_merge_rings::<_, _, ZnxRef>(&mut back, 0, &parts, 0, &mut tmp);
+    let mut t = 0;
+    while t < N * size {
+        assert!(back.raw()[t] == a.raw()[t], "C09:merge(split(a)) == a");
+        t += 1;
+    }
+}
+
+#[kani::proof]
+#[kani::unwind(18)]
+#[kani::stub(alloc::fmt::format, fmt_stub)]
+fn c09_split_merge__n8_g2() {
+    split_merge_laws::<8, 2, 4>();
+}
+
+#[kani::proof]
+#[kani::unwind(18)]
+#[kani::stub(alloc::fmt::format, fmt_stub)]
+fn c09_split_merge__n8_g4() {
+    split_merge_laws::<8, 4, 2>();
+}
+
+// ------------------------------------------------------------------------------------------------
+// C06 — znx_fill_uniform_ref / vec_znx_fill_uniform_ref on a symbolic tape (see kx/hal/lib.rs): range, bijection on the
+// low b bits, exactly one draw per coefficient, column order of a multi-limb fill (the order C19's decompression relies on).
+// ------------------------------------------------------------------------------------------------
+static mut TAPE: [u64; 8] = [0; 8];
+static mut DRAWS: usize = 0;
+fn tape_next_u64(_rng: &mut rand_chacha::ChaCha8Rng) -> Result<u64, core::convert::Infallible> {
+    unsafe {
+        let v: u64 = kani::any();
+        if DRAWS < 8 {
+            TAPE[DRAWS] = v;
+        }
+        DRAWS += 1;
+        Ok(v)
+    }
+}
+
+#[kani::proof]
+#[kani::unwind(6)]
+#[kani::stub(<rand_chacha::ChaCha8Rng as rand_core::TryRng>::try_next_u64, tape_next_u64)]
+fn c06_vec_znx_fill_uniform_ref__n2_size2() {
+    use crate::reference::vec_znx::vec_znx_fill_uniform_ref;
+    use poulpy_hal::layouts::{VecZnx, ZnxView, ZnxViewMut};
+    use poulpy_hal::source::Source;
+    let mut s = Source::new([0u8; 32]);
+    let mut v: VecZnx<Vec<u8>> = VecZnx::alloc(2, 2, 2);
+    let garbage: [i64; 8] = kani::any();
+    v.raw_mut().copy_from_slice(&garbage);
+    let b: usize = kani::any();
+    kani::assume(b >= 1 && b <= 62);
+    let col: usize = kani::any();
+    kani::assume(col < 2);
+    vec_znx_fill_uniform_ref(b, &mut v, col, &mut s);
+    let half: i64 = 1i64 << (b - 1);
+    let mask: u64 = (1u64 << b) - 1;
+    unsafe {
+        assert!(DRAWS == 4, "C06:one draw per coefficient of the selected column");
+        let mut j = 0;
+        while j < 2 {
+            let mut k = 0;
+            while k < 2 {
+                let x = v.at(col, j)[k];
+                assert!(x >= -half && x < half, "C06:uniform limb range");
+                assert!(x == ((TAPE[2 * j + k] & mask) as i64) - half, "C06:coefficient (j,k) == low b bits of draw 2j+k, recentred");
+                // C11 frame: the other column keeps its previous contents
+                assert!(v.at(1 - col, j)[k] == garbage[2 * (2 * j + (1 - col)) + k], "C11:other column untouched");
+                k += 1;
+            }
+            j += 1;
+        }
+    }
+}
